@@ -757,6 +757,34 @@ class PydModel(Model):
         eng = self.eng
         if name == "model_dump_json" and recv.cls in eng.reg.classes:
             eng.eval_args(st, node)
+            excl = False
+            if node.args:
+                raise self.E.Unsupported("model_dump_json with positional arguments")
+            for kw in node.keywords:
+                if kw.arg == "indent":
+                    continue
+                if kw.arg == "exclude_defaults" and isinstance(
+                        kw.value, ast.Constant) and isinstance(
+                            kw.value.value, bool):
+                    excl = kw.value.value
+                    continue
+                raise self.E.Unsupported(f"model_dump_json({kw.arg}=...)")
+            if excl:
+                # A-PYD narrowed: a dump that leaves out the fields equal to
+                # their defaults parses back to the same model only if the
+                # reading side fills in the SAME defaults.  True for defaults
+                # that are literals of the class statement; a default computed
+                # from the environment (the running library's version) is a
+                # different value in another release: the dump-parse identity
+                # then needs DEFAULT_writer == DEFAULT_reader, which nothing
+                # entails - one obligation per such field, refuted.
+                for c_, f_, src_ in self.env_defaults(recv.cls):
+                    w = z3.Const(f"DEFAULT_WRITER!{c_}.{f_}", U)
+                    r = z3.Const(f"DEFAULT_READER!{c_}.{f_}", U)
+                    # (independent of the path: stated without the path
+                    # condition, so that the solver can exhibit the model)
+                    eng.oblige(st, "dump-parse-identity", node.lineno, w == r,
+                               label=f"{c_}.{f_} = {src_}", no_pc=True)
             snap = eng.alloc(st, recv.cls)
             self.copy_fields(st, recv.cls, recv, snap)
             t = self.dump_fn(recv.cls)(snap.t)
@@ -765,6 +793,66 @@ class PydModel(Model):
             st.assume(z3.Not(z3.Function("REJECTS_" + recv.cls, U, BoolS)(t)))
             return VU(t)
         return NotImplemented
+
+    _CONTAINER_FACTORIES = ("dict", "list", "set", "tuple", "frozenset")
+
+    def env_defaults(self, cls):
+        """[(class, field, source text)] over the model classes reachable from
+        cls (as declared in the repository's real class statements): fields
+        whose default is not a literal of the class statement."""
+        from . import source as S
+        idx = S.class_index(self.eng.repo)
+        out, seen, todo = [], set(), [cls]
+
+        def literal(e):
+            if isinstance(e, ast.Constant):
+                return True
+            if isinstance(e, ast.UnaryOp):
+                return literal(e.operand)
+            if isinstance(e, (ast.Tuple, ast.List, ast.Set)):
+                return all(literal(x) for x in e.elts)
+            if isinstance(e, ast.Dict):
+                return all(k is not None and literal(k) and literal(v)
+                           for k, v in zip(e.keys, e.values))
+            return False
+
+        def names_in(e):
+            return {n.id for n in ast.walk(e) if isinstance(n, ast.Name)}
+        while todo:
+            c = todo.pop()
+            if c in seen or c not in idx:
+                continue
+            seen.add(c)
+            _, cnode = idx[c]
+            for b in cnode.bases:
+                todo.extend(names_in(b) & set(idx))
+            for n in cnode.body:
+                if not isinstance(n, ast.AnnAssign) or not isinstance(
+                        n.target, ast.Name):
+                    continue
+                todo.extend(names_in(n.annotation) & set(idx))
+                d = n.value
+                if d is None or literal(d):
+                    continue
+                if isinstance(d, ast.Call) and isinstance(d.func, ast.Name) \
+                        and d.func.id == "Field" and not d.args:
+                    ok = True
+                    for kw in d.keywords:
+                        if kw.arg == "default":
+                            ok = ok and literal(kw.value)
+                        elif kw.arg == "default_factory":
+                            ok = ok and isinstance(kw.value, ast.Name) and (
+                                kw.value.id in self._CONTAINER_FACTORIES or
+                                kw.value.id in idx)
+                            if isinstance(kw.value, ast.Name) and \
+                                    kw.value.id in idx:
+                                todo.append(kw.value.id)
+                        elif kw.arg in ("default", "default_factory"):
+                            ok = False
+                    if ok:
+                        continue
+                out.append((c, n.target.id, ast.unparse(d)))
+        return sorted(out)
 
     def copy_fields(self, st, cls, src, dst):
         eng = self.eng
